@@ -121,7 +121,7 @@ SCALES = (0.5, 2.0, 0.8, 1.25, 10.0, 0.1, 1.001)
 
 def random_kwargs(rng):
     """(class tag, kwargs) for an update; matrices are exact identity or far from it."""
-    r = int(rng.integers(0, 13))
+    r = int(rng.integers(0, 15))
     q = rng.normal(size=4)
     q /= np.linalg.norm(q)
     axis = _unit(rng.normal(size=3))
@@ -161,9 +161,20 @@ def random_kwargs(rng):
         k = int(rng.integers(3))
         M[:3, k] *= -1.0  # mirror
         return "matrix_mirror", {"matrix": M}
+    if r in (13, 14):
+        # single-precision accuracy (float32 buffers, text formats): orthonormal to ~1e-7 only, which
+        # is inside the band where get() repairs matrices (1e-13 < deviation < 1e-5)
+        M = _rigid(axis, angle, t)
+        if r == 14:
+            M[:3, int(rng.integers(3))] *= -1.0
+        return ("matrix_rigid_f32" if r == 13 else "matrix_mirror_f32"), {"matrix": as_f32(M)}
     M = _rigid(axis, angle, t)
     M[:3, :3] = M[:3, :3] @ np.diag(rng.choice([0.5, 2.0, 1.25, 3.0], size=3))
     return "matrix_aniso", {"matrix": M}
+
+
+def as_f32(M):
+    return np.asarray(M, dtype=np.float32).astype(np.float64)
 
 
 def _jsonable_kw(kw):
@@ -374,6 +385,13 @@ def apply(run, st, op, case):
                 return False
             old_parent = m.parent.get(to)
             old_matrix = m.matrix.get(to)
+            # what the model stores is fixed NOW: the library gets float64 buffers that belong to
+            # the caller and are re-used (overwritten in place) as soon as the call returns - an
+            # edge must hold the values passed at the time of the call, not a reference
+            M_call = kwargs_matrix(kw)
+            for x in _BUFFER_KEYS:
+                if isinstance(kw.get(x), np.ndarray):
+                    kw[x] = np.array(kw[x], dtype=np.float64)
             try:
                 if k == "update":
                     if frm is None:
@@ -389,7 +407,16 @@ def apply(run, st, op, case):
             has_transform = any(kw.get(x) is not None for x in ("matrix", "quaternion", "translation")) or (
                 kw.get("axis") is not None and kw.get("angle") is not None
             )
-            M = kwargs_matrix(kw)
+            M = M_call
+            for x in _BUFFER_KEYS:
+                if isinstance(kw.get(x), np.ndarray):
+                    try:
+                        kw[x] += 0.37  # the caller re-uses its buffer
+                        run.count("caller_buffers_overwritten_after_update")
+                    except ValueError:
+                        run.violation("op=%s sym=caller_array_made_read_only arg=%s" % (cls, x),
+                                      "an array passed to a scene-graph edit was made read-only by the library",
+                                      dict(case))
             if not has_transform and old_parent == frm_eff and old_matrix is not None:
                 # statement-silent: the edge may keep its matrix or be reset to identity.
                 # Peek at the raw edge record (no cache is touched) and adopt what happened.
@@ -468,6 +495,9 @@ def apply(run, st, op, case):
 
 class _Abort(Exception):
     pass
+
+
+_BUFFER_KEYS = ("matrix", "quaternion", "axis", "translation")
 
 
 def clone_graph(g):
@@ -582,6 +612,15 @@ def judge_pair(m, frm, to, obs):
     if obs[0] == "raise":
         return ("raised_connected", E)
     if in_repair_band(E):
+        # fix_rigid (repair_rigid=1e-5) may replace the product by the nearest orthogonal matrix,
+        # which it documents to lie within 1e-5 of it: the answer is still judged, at that width
+        # (a mirrored product must stay mirrored, a repaired one must stay next to the product)
+        R = np.asarray(obs[1], dtype=np.float64)
+        if R.shape != E.shape or not np.isfinite(R).all() or \
+                float(np.abs(E - R).max()) > 3e-5 * max(1.0, float(np.abs(E).max())):
+            return ("wrong_matrix_repair_band", E)
+        if obs[2] != m.geometry.get(to):
+            return ("wrong_geometry", E)
         return None
     if not close(E, obs[1]):
         return ("wrong_matrix", E)
@@ -761,7 +800,10 @@ def _sweep(run, st, g, m, ghost, geom_removed, order, case, where="main", absent
 
     # laws of the statement on the real answers alone
     ok_pairs = {k2: v for k2, v in real.items() if v[0] == "ok"}
-    law_bad = check_laws(names, ok_pairs)
+    # edges of single-precision accuracy put get() into its repair band: each answer may then sit
+    # up to 1e-5 from the raw product, and the laws are judged at that width
+    band = any(in_repair_band(np.asarray(M)) for M in m.matrix.values() if M is not None)
+    law_bad = check_laws(names, ok_pairs, 1e-4 if band else 10 * TOL)
     run.count("law_checks", law_bad[1])
     if law_bad[0]:
         if bad:
@@ -809,14 +851,14 @@ def _listed(g):
         return set()
 
 
-def check_laws(names, ok):
+def check_laws(names, ok, tol=10 * TOL):
     """-> ([(law, frames)], number of checks) on the real answers only."""
     out, n = [], 0
     mats = {k: v[1] for k, v in ok.items()}
     for a in names:
         if (a, a) in mats:
             n += 1
-            if not close(_I, mats[(a, a)]):
+            if not close(_I, mats[(a, a)]) and np.abs(_I - mats[(a, a)]).max() > tol:
                 out.append(("identity", [a]))
     for (a, b), Mab in mats.items():
         if a == b:
@@ -826,7 +868,7 @@ def check_laws(names, ok):
             continue
         n += 1
         s = max(1.0, float(np.abs(Mab).max())) * max(1.0, float(np.abs(Mba).max()))
-        if np.abs(Mab @ Mba - _I).max() > 10 * TOL * s:
+        if np.abs(Mab @ Mba - _I).max() > tol * s:
             out.append(("inverse", [a, b]))
     for (a, b), Mab in mats.items():
         if a == b:
@@ -839,7 +881,7 @@ def check_laws(names, ok):
                 continue
             n += 1
             s = max(1.0, float(np.abs(Mab).max())) * max(1.0, float(np.abs(Mbc).max()))
-            if np.abs(Mab @ Mbc - Mac).max() > 10 * TOL * s:
+            if np.abs(Mab @ Mbc - Mac).max() > tol * s:
                 out.append(("compose", [a, b, c]))
     return out, n
 
@@ -1231,6 +1273,32 @@ def _workload(run):
                 record(run, "enum:%s_%s+len%d" % (prefix[0], "warm" if prefix[1] else "cold", n), ops, res, prefix)
             if not done_enum:
                 break
+    # single-precision edges (rigid and mirrored): every answer through them lies in get()'s repair band
+    M1, M2, M3, M4, M5 = fixed_matrices()
+    Fm = M3.copy()
+    Fm[:3, 1] *= -1.0
+    Fn = M4.copy()
+    Fn[:3, 0] *= -1.0
+    B = [
+        {"op": "update", "to": "a", "from": "world", "kw": {"matrix": as_f32(M1)}, "cls": "matrix_rigid_f32"},
+        {"op": "update", "to": "b", "from": "a", "kw": {"matrix": as_f32(Fm)}, "cls": "matrix_mirror_f32"},
+        {"op": "update", "to": "c", "from": "b", "kw": {"matrix": as_f32(M4)}, "cls": "matrix_rigid_f32"},
+        {"op": "update", "to": "c", "from": "world", "kw": {"matrix": as_f32(Fn), "geometry": "g1"}, "cls": "matrix_mirror_f32"},
+        {"op": "update", "to": "b", "from": "world", "kw": {"matrix": M3}, "cls": "M3"},
+        {"op": "get", "to": "c", "from": "a"},
+        {"op": "copy"},
+    ]
+    for n in (1, 2, 3):
+        for combo in itertools.product(range(len(B)), repeat=n):
+            idx += 1
+            if not run.mine(idx) or run.out_of_time(0.96):
+                continue
+            ops = [B[i] for i in combo]
+            res = run_history(run, ops, idx, False, "enum")
+            if res is None:
+                run.count("enumerated_histories_pruned_not_applicable")
+                continue
+            record(run, "enum_f32:len%d" % n, ops, res)
     run.note("enumeration_complete", done_enum)
     run.note("enumeration_seconds", round(run.elapsed(), 1))
     if not done_enum:
